@@ -115,32 +115,6 @@ def replace_at(d, path, new):
     return r
 
 
-def share_equal_subtrees(o):
-    """make structurally identical sub-trees (same dump, layout included) ONE object, as a program that builds a
-    query from parts does (`fg = FieldGroup(...); AndOperation(SearchField("f", fg), Plus(fg))`). Returns the number
-    of nodes replaced. The verdict on a node depends on where it stands, not on whether the object was met before
-    (seeded C20-E: a visited-id set in `check`)"""
-    seen = {}
-    n = 0
-    stack = [o]
-    while stack:
-        node = stack.pop()
-        kids = list(node.children)
-        new = []
-        for c in kids:
-            key = (type(c).__name__, json.dumps(common.dump_tree(c), sort_keys=True, default=str))
-            if key in seen and seen[key] is not c:
-                new.append(seen[key])
-                n += 1
-            else:
-                seen.setdefault(key, c)
-                new.append(c)
-        if any(a is not b for a, b in zip(kids, new)):
-            node.children = new
-        stack.extend(c for c in new)
-    return n
-
-
 def run_check(ctx, d, zeal, info):
     """-> (errors list or None, call result)"""
     I = common.impl()
@@ -160,7 +134,7 @@ def run_check(ctx, d, zeal, info):
     if not trees.unchanged(o, snap):
         ctx.fail("the checker modified the tree", info)
     o2 = common.load_tree(d)
-    if share_equal_subtrees(o2):
+    if trees.share_equal_subtrees(o2):
         ctx.count("trees with shared node objects")
         try:
             c2 = I.check.LuceneCheck(zeal=zeal)
@@ -189,7 +163,7 @@ def run(ctx):
 
     # (a) arbitrary trees
     tg = gen.TreeGen(rng, layout="partial", wild=0.3, none_items=0.06)
-    hist = trees.SharedObjects(ctx, rng, "LuceneCheck")
+    hist = trees.SharedObjects(ctx, rng, "LuceneCheck", known_params={"tree"})
     I = common.impl()
     for i in range(ctx.budget(300, 6000)):
         d = common.normalize(tg.any())
